@@ -120,6 +120,19 @@ def run(ctx):
             asg.update(kw)
             out = state_outcomes(fsm, bstate, asg)
             return {gen.get(s, s) for s in out}
+        # right after the re-advertisement block ran, acks_to_send and credits_to_issue are set and every flag the block
+        # clears is 0; whatever the block does NOT clear (a pending LXU, ...) may still be set -- and must not get ahead of the
+        # advertisement: with the cleared flags at 0 and all other conditions free the next command is LGOOD, then LCRD
+        cleared = {r: False for r, v in want.items() if v == 0 and r in ('self.lrty_pending', 'lbad_pending', 'keepalive_pending')}
+        for nm, asg in (('lgood-first', dict(cleared, **{en: True, 'acks_to_send': True, 'credits_to_issue': True})),
+                        ('then-lcrd', dict(cleared, **{en: True, 'acks_to_send': False, 'credits_to_issue': True}))):
+            o_ = state_outcomes(fsm, bstate, asg)
+            got = {gen.get(s_, s_) for s_ in o_}
+            wantc = 'LGOOD' if nm == 'lgood-first' else 'LCRD'
+            ctx.ob('C38.advertisement-first', 'HeaderPacketReceiver.' + nm, len(got) == 1 and wantc in str(got), fsm.state_loc[bstate],
+                   'after re-entry the receiver begins with LGOOD and then its LCRDs: with the flags the re-advertisement block '
+                   'clears at 0 and everything it does not clear left free, the dispatched command must be %s; possible: %s' % (
+                       wantc, sorted(map(str, got))))
         r1 = go(acks_to_send=True, credits_to_issue=True, lbad_pending=True)
         r2 = go(credits_to_issue=True, lbad_pending=True)
         r3 = go(lbad_pending=True)
